@@ -32,6 +32,10 @@ CHECKS = {
             "releases them relative to the expiries; separate sender scenario", "5 C13", "timing oracle on the virtual clock"),
     "C14": ("FaultTableModel judged at every call over nine fault-provoking scenarios x handler codes for every condition of both "
             "entities", "5 C14", "fault scenario x handler table search"),
+    "C05": ("whole filestore tree (names, types, contents) compared with a SparseFile / tree model after every handler call while a "
+            "synthetic peer throws arbitrary well-formed PDU histories, timer advances, cancels and consecutive transactions at "
+            "the destination handler; native (tmpfs sandbox with decoys) and in-memory filestore; separate population with "
+            "tape-decided write / create / truncate rejections", "5 C05", "refinement vs write model after every call"),
     "C06": ("IntervalSet model of the bytes stored so far judged on every NAK PDU a real destination handler emits while a scripted "
             "sender delivers a grid-segmented file in tape-chosen order with loss / duplication / displacement and answers NAK "
             "sequences across NAK-timer expiries; exactness on timer-driven re-issues, sandwich inclusion on the first sequence", "5 C06", "refinement vs IntervalSet model"),
